@@ -79,3 +79,12 @@ def latin1_upper(v):
 
 def latin1_lower(v):
     return chr(v).islower()
+
+
+def nmatches(pat, data):
+    """The number of matches re.finditer(pat, data) really produces (the library's `regex` module, as the code uses)."""
+    try:
+        import regex as _re
+    except ImportError:  # pragma: no cover
+        import re as _re
+    return sum(1 for _ in _re.finditer(pat, data))
